@@ -438,7 +438,13 @@ func (r *e1run) fetchListed(si int, mp *m3u.Media, obsIdx int) {
 				wantCT = "video/MP2T"
 			}
 			if rr.Status != 200 {
-				r.add("C05", "listed-uri-not-200", "%s is listed after write %d but GET returns status %d", key, len(r.ops)-1, rr.Status)
+				sig := "listed-uri-not-200"
+				if r.faulted && it.kind == "init" && ui.body == nil && rr.Status <= 0 {
+					// the EXT-X-MAP of a stream whose init segment could never be built yet (the parameter sets in force since
+					// before the first rotation cannot be parsed)
+					sig += ":init-never-built"
+				}
+				r.add("C05", sig, "%s is listed after write %d but GET returns status %d; ops %s", key, len(r.ops)-1, rr.Status, r.opsString())
 			} else {
 				if ct := rr.Hdr.Get("Content-Type"); ct != wantCT {
 					r.add("C05", "content-type", "%s has content type %q, want %q", key, ct, wantCT)
